@@ -10,6 +10,7 @@ an imported rule is a violation of the importer.
 IMPORTS = {
     "C01": [
         ("C07", ["C07.D1", "C07.W1", "C07.W2", "C07.W3"], "no infinitely sized types: every containment cycle is cut"),
+        ("C11", ["C11.D1"], "the flags that switch on the untagged-enum FromStr/Display impls hold only for enums whose every variant is a single item with that impl: otherwise the emitted impl does not type-check"),
         ("C17", ["C17.D1"], "forwarding impls (newtype/untagged FromStr, Display, Default) are emitted wherever has_impl answers true for the inner type: a false `true` yields an impl that does not type-check"),
         ("C19", ["C19.T2", "C19.D1"], "no conflicting or missing Deserialize impls; no derive that cannot be derived"),
         ("C06", ["C06.D1", "C06.D2", "C06.W1", "C06.W2"], "a default the validator accepts is one the renderer can render (no panic while rendering, no ill-typed default expression) and every shared default fn the output names is defined"),
@@ -35,6 +36,9 @@ IMPORTS = {
     "C14": [
         ("C16", ["C16.W2"], "replacement and merging read the definitions index: it is only ever added to (a replaced definition's schema must stay available for structural merging)"),
     ],
+    "C17": [
+        ("C11", ["C11.D1"], "has_impl answers true for an enum through the bespoke-impl flags: the flags are set only where the emitted impl exists and type-checks"),
+    ],
     "C18": [
         ("C17", ["C17.W2"], "builder fields and setters name property types relative to `super`: the module prefix reaches every nested type"),
     ],
@@ -42,6 +46,7 @@ IMPORTS = {
         ("C14", ["C14.T1"], "the base derives (Serialize, Deserialize, Debug, Clone) survive the assembly of the derive list whatever extra derives the user adds"),
     ],
     "C16": [
+        ("C14", ["C14.W2"], "the name of a patched type is a pure function of the settings, not of what the space already contains: re-adding a schema finds the registered type"),
         ("C02", ["C02.W4"], "an id handed out for a schema resolves to that schema's structure: a name hit is not answered with another schema's type"),
     ],
 }
